@@ -269,10 +269,15 @@ impl FixedSizeListArray {
             )));
         }
 
-        if values.len() != len * s {
+        let expected_values_len = len.checked_mul(s).ok_or_else(|| {
+            ArrowError::InvalidArgumentError(format!(
+                "FixedSizeListArray length {len} multiplied by the list size {s} overflows usize"
+            ))
+        })?;
+        if values.len() != expected_values_len {
             return Err(ArrowError::InvalidArgumentError(format!(
                 "Incorrect length of values buffer for FixedSizeListArray, expected {} got {}",
-                len * s,
+                expected_values_len,
                 values.len(),
             )));
         }
